@@ -58,6 +58,14 @@ func (r *RtRefreshManager) RefreshNoWait()
 funclit 0 in (r *RtRefreshManager) Refresh(force bool) <-chan error
   props C12
   chan_inv r.triggerRefresh : $msg != nil
+  # a request that is not handed to the loop is answered HERE, with the context's
+  # error, before the channel is closed (a bare close would read as "refreshed")
+  ghostvar $answered bool = false
+  ghostvar $cerr error = nil
+  ensures [handed-over-or-answered-with-the-error] tagged("sent:r.triggerRefresh") || ($answered && tagged("closed:resp"))
+  ghost at send(r.triggerRefresh): assert($msg.respCh == resp && $msg.forceCplRefresh == force)
+  ghost at call(Err): $cerr = $ret0
+  ghost at send(resp): assert($msg == $cerr && tagged("recv:r.ctx.Done()")); $answered = true
 
 func (r *RtRefreshManager) loop()
   props C12 C14
